@@ -225,7 +225,7 @@ pub fn campaign(seed: u64, count: u64, max_ops: u64, cfg: &GenCfg, ops_path: &st
                 out.violations.push(format!("history {} (seed {}) step {}: {} :: {}", h, seed, i, short(&line), v));
             }
             writeln!(ops_out, "{}", line).unwrap();
-            writeln!(impl_out, "{} | {}", observed, catch(|| real.dirtable()).unwrap_or_else(|_| "-".into())).unwrap();
+            writeln!(impl_out, "{} | {}", observed, catch(|| format!("{} | {}", real.dirtable(), real.handle_states())).unwrap_or_else(|_| "- | -".into())).unwrap();
             out.ops += 1;
             if observed == "panic" || dead {
                 break;
@@ -255,12 +255,13 @@ pub fn replay(ops_path: &str, impl_path: &str) -> Vec<String> {
     let mut impl_out = String::new();
     let mut violations = Vec::new();
     let mut dead = false;
+    let mut open: BTreeMap<u32, String> = BTreeMap::new();
     for (i, line) in text.lines().enumerate() {
         if line.starts_with("create ") {
             dead = false;
         }
         if dead {
-            writeln!(impl_out, "skipped | -").unwrap();
+            writeln!(impl_out, "skipped | - | -").unwrap();
             continue;
         }
         let before = real.image();
@@ -278,7 +279,28 @@ pub fn replay(ops_path: &str, impl_path: &str) -> Vec<String> {
         if let Some(v) = real.clock_violation.take() {
             violations.push(format!("step {}: {} :: {}", i, short(line), v));
         }
-        writeln!(impl_out, "{} | {}", observed, catch(|| real.dirtable()).unwrap_or_else(|_| "-".into())).unwrap();
+        {
+            let t: Vec<&str> = line.split(' ').collect();
+            match t.as_slice() {
+                ["hopen", id, a] | ["hcreate", id, a] | ["hnew", id, a] if observed.starts_with("ok") => {
+                    if let Some(names) = chain_of(&crate::names::dec(a)) {
+                        open.insert(id.parse().unwrap(), format!("/{}", names.join("/")));
+                    }
+                }
+                ["hclose", id] => {
+                    open.remove(&id.parse().unwrap());
+                }
+                ["create", _] | ["reopen", _] => open.clear(),
+                _ => {}
+            }
+            if observed != "panic" {
+                if let Ok(Some(v)) = catch(|| binding_violation(&real, &open)) {
+                    violations.push(format!("step {}: {} :: {}", i, short(line), v));
+                    dead = true;
+                }
+            }
+        }
+        writeln!(impl_out, "{} | {}", observed, catch(|| format!("{} | {}", real.dirtable(), real.handle_states())).unwrap_or_else(|_| "- | -".into())).unwrap();
         if observed == "panic" {
             dead = true;
         }
@@ -375,7 +397,7 @@ pub fn perm_campaign(seed: u64, n: usize, sample: u64, ops_path: &str, impl_path
                         }
                     }
                     writeln!(ops_out, "{}", line).unwrap();
-                    writeln!(impl_out, "{} | {}", observed, catch(|| real.dirtable()).unwrap_or_else(|_| "-".into())).unwrap();
+                    writeln!(impl_out, "{} | {}", observed, catch(|| format!("{} | {}", real.dirtable(), real.handle_states())).unwrap_or_else(|_| "- | -".into())).unwrap();
                     out.ops += 1;
                     if dead {
                         break;
@@ -390,4 +412,223 @@ pub fn perm_campaign(seed: u64, n: usize, sample: u64, ops_path: &str, impl_path
     std::fs::write(ops_path, ops_out).unwrap();
     std::fs::write(impl_path, impl_out).unwrap();
     out
+}
+
+/// C07 campaign: several open handles on different streams interleaved with structural
+/// mutations of *other* entries (biased to removals of siblings — the two-children case — and
+/// creations that reuse freed directory slots), resizes across 4096 and observations.
+pub fn handle_campaign(seed: u64, count: u64, max_ops: u64, ops_path: &str, impl_path: &str) -> Outcome {
+    let mut rng = Rng::new(seed);
+    let mut ops_out = String::new();
+    let mut impl_out = String::new();
+    let mut out = Outcome { ops: 0, histories: 0, hist: Default::default(), distinct: Default::default(), violations: vec![] };
+    let cfg = GenCfg { names_valid_only: true, reopen_pct: 0, max_depth: 2, handle_ops: true, meta_ops: true, refusal_bias: false, meta_heavy: false };
+    for h in 0..count {
+        let mut r = rng.fork();
+        let version = if r.chance(1, 2) { "3" } else { "4" };
+        let pool: Vec<String> = {
+            let base = ["m", "c", "x", "a", "k", "s", "q", "e", "g", "u", "Bb", "dd", "ff", "zz"];
+            let n = 5 + r.below(8) as usize;
+            let mut v: Vec<String> = base.iter().map(|s| s.to_string()).collect();
+            // shuffle
+            for i in (1..v.len()).rev() {
+                let j = r.below(i as u64 + 1) as usize;
+                v.swap(i, j);
+            }
+            v.truncate(n);
+            v
+        };
+        let mut real = Real::new();
+        let mut model = RefModel::new();
+        let mut open: BTreeMap<u32, String> = BTreeMap::new(); // id -> canonical path
+        let n_ops = 8 + r.below(max_ops);
+        let mut hash: u64 = 1469598103934665603;
+        let mut lines_done = 0u64;
+        let mut pending: Vec<String> = vec![format!("create {}", version)];
+        // a prefix that builds a sibling tree with inner nodes
+        for nm in pool.iter().take(3 + r.below(4) as usize) {
+            let p = format!("/{}", nm);
+            if r.chance(1, 5) {
+                pending.push(format!("mkdir {}", enc(&p)));
+            } else {
+                pending.push(format!("put {} {}", enc(&p), hex(&pattern(*r.pick(&[0usize, 10, 100, 700, 4095, 4096, 5000]), h + lines_done))));
+            }
+        }
+        let mut dead = false;
+        while lines_done < n_ops && !dead {
+            let line = if let Some(l) = pending.first().cloned() {
+                pending.remove(0);
+                l
+            } else {
+                let streams: Vec<String> = model.all_paths().into_iter().filter(|(_, s)| *s).map(|(p, _)| p).collect();
+                let held: Vec<&String> = open.values().collect();
+                let free_streams: Vec<&String> = streams.iter().filter(|p| !held.contains(p)).collect();
+                let ids: Vec<u32> = open.keys().cloned().collect();
+                let w = r.below(100);
+                if w < 12 && !free_streams.is_empty() && open.len() < 4 {
+                    let id = (0..8).find(|i| !open.contains_key(i)).unwrap();
+                    let p = (*r.pick(&free_streams)).clone();
+                    open.insert(id, p.clone());
+                    format!("hopen {} {}", id, enc(&p))
+                } else if w < 16 && open.len() < 4 {
+                    let id = (0..8).find(|i| !open.contains_key(i)).unwrap();
+                    let nm = r.pick(&pool).clone();
+                    let p = format!("/{}", nm);
+                    if model.all_paths().iter().any(|(q, _)| key_of(&q[1..]) == key_of(&nm)) {
+                        format!("exists {}", enc(&p))
+                    } else {
+                        open.insert(id, p.clone());
+                        format!("hnew {} {}", id, enc(&p))
+                    }
+                } else if w < 50 && !ids.is_empty() {
+                    let id = *r.pick(&ids);
+                    match r.below(10) {
+                        0..=3 => format!("hwrite {} {}", id, hex(&pattern(*r.pick(&[1usize, 10, 64, 100, 700, 1024, 3000, 4096, 5000]), h * 131 + lines_done))),
+                        4 | 5 => format!("hread {} {}", id, r.pick(&[1usize, 10, 100, 1000, 5000, 100000])),
+                        6 => format!("hseek {} {}", id, r.below(6000)),
+                        7 => format!("hsetlen {} {}", id, r.pick(&[0usize, 10, 64, 100, 4095, 4096, 4097, 6000, 9000])),
+                        8 => format!("hflush {}", id),
+                        _ => {
+                            open.remove(&id);
+                            format!("hclose {}", id)
+                        }
+                    }
+                } else if w < 72 {
+                    // structural mutation of entries no handle is bound to
+                    let others: Vec<(String, bool)> = model.all_paths().into_iter().filter(|(p, _)| !held.iter().any(|hp| *hp == p || hp.starts_with(&format!("{}/", p)))).collect();
+                    match r.below(10) {
+                        0..=4 if !others.is_empty() => {
+                            let (p, is_stream) = r.pick(&others).clone();
+                            if is_stream { format!("rm {}", enc(&p)) } else { format!("rmall {}", enc(&p)) }
+                        }
+                        5 | 6 => {
+                            let nm = r.pick(&pool).clone();
+                            let parent = if r.chance(1, 3) {
+                                model.all_paths().into_iter().filter(|(_, s)| !*s).map(|(p, _)| p).next().unwrap_or_default()
+                            } else {
+                                String::new()
+                            };
+                            let p = format!("{}/{}", parent, nm);
+                            if held.iter().any(|hp| key_of(&hp[1..]) == key_of(&p[1..])) {
+                                format!("exists {}", enc(&p))
+                            } else {
+                                format!("put {} {}", enc(&p), hex(&pattern(*r.pick(&[0usize, 5, 64, 500, 4096, 5000]), h + lines_done)))
+                            }
+                        }
+                        7 => format!("mkdir {}", enc(&format!("/{}", r.pick(&pool)))),
+                        _ if !others.is_empty() => {
+                            let (p, _) = r.pick(&others).clone();
+                            format!("setbits {} {}", enc(&p), r.next() as u32)
+                        }
+                        _ => "walk".to_string(),
+                    }
+                } else if w < 80 && !ids.is_empty() {
+                    // quiescent point: flush everything, then look at all of it
+                    for id in &ids {
+                        pending.push(format!("hflush {}", id));
+                    }
+                    pending.push("walk".to_string());
+                    format!("hlen {}", ids[0])
+                } else if w < 90 {
+                    if let Some(p) = free_streams.first() { format!("get {}", enc(p)) } else { "lsroot".to_string() }
+                } else {
+                    gen_op(&mut r, &model, &pool, &cfg, &[0, 10, 100], h)
+                }
+            };
+            // never touch a stream a handle is bound to through another handle or a removal
+            let t: Vec<&str> = line.split(' ').collect();
+            if matches!(t[0], "put" | "mkstream" | "mknew" | "rm" | "rmall" | "rmdir" | "get" | "open" | "mkdirs") && t.len() > 1 {
+                let target = chain_of(&crate::names::dec(t[1])).map(|n| n.iter().map(|x| key_of(x)).collect::<Vec<_>>());
+                let clash = open.values().any(|hp| {
+                    let hk: Vec<Key> = chain_of(hp).unwrap().iter().map(|x| key_of(x)).collect();
+                    match &target {
+                        Some(tk) => hk.len() >= tk.len() && hk[..tk.len()] == tk[..],
+                        None => false,
+                    }
+                });
+                if clash {
+                    continue;
+                }
+            }
+            for b in line.bytes() {
+                hash = (hash ^ b as u64).wrapping_mul(1099511628211);
+            }
+            let observed = real.exec(&line);
+            let expected = model.apply(&line);
+            let kind = line.split(' ').next().unwrap().to_string();
+            let okind: String = observed.split(' ').take(if observed.starts_with("err") { 2 } else { 1 }).collect::<Vec<_>>().join(" ");
+            *out.hist.entry(format!("{}:{}", kind, okind)).or_insert(0) += 1;
+            if let Some(exp) = expected {
+                if exp != observed {
+                    out.violations.push(format!("history {} (seed {}) step {}: {} gave {} but the abstract tree model says {}", h, seed, lines_done, short(&line), short(&observed), short(&exp)));
+                    dead = true;
+                }
+            }
+            // the binding itself: a handle's slot must be the slot of the entry at its path
+            if !dead && observed != "panic" {
+                if let Some(v) = binding_violation(&real, &open) {
+                    out.violations.push(format!("history {} (seed {}) step {}: {} :: {}", h, seed, lines_done, short(&line), v));
+                    dead = true;
+                }
+            }
+            writeln!(ops_out, "{}", line).unwrap();
+            writeln!(impl_out, "{} | {}", observed, catch(|| format!("{} | {}", real.dirtable(), real.handle_states())).unwrap_or_else(|_| "- | -".into())).unwrap();
+            out.ops += 1;
+            lines_done += 1;
+            if observed == "panic" {
+                dead = true;
+            }
+        }
+        out.histories += 1;
+        out.distinct.insert(hash);
+    }
+    std::fs::write(ops_path, ops_out).unwrap();
+    std::fs::write(impl_path, impl_out).unwrap();
+    out
+}
+
+use std::collections::BTreeMap;
+
+/// A handle opened on path p must have `stream_id` = the slot at which the directory holds the
+/// entry that lookups of p find (observed through hook H3).
+pub fn binding_violation(real: &Real, open: &BTreeMap<u32, String>) -> Option<String> {
+    let comp = real.comp.as_ref()?;
+    let d = comp.verif_dump();
+    for (id, path) in open.iter() {
+        let Some(s) = real.handles.get(id) else { continue };
+        let slot = s.verif_state().0 as usize;
+        let names = chain_of(path)?;
+        // walk the table by name from the root
+        let mut cur = 0usize;
+        let mut ok = true;
+        for n in &names {
+            let mut c = d.dir_entries[cur].child;
+            let mut found = None;
+            while c != u32::MAX {
+                let e = &d.dir_entries[c as usize];
+                match cfb::verif::compare_names(n, &e.name) {
+                    std::cmp::Ordering::Equal => {
+                        found = Some(c as usize);
+                        break;
+                    }
+                    std::cmp::Ordering::Less => c = e.left_sibling,
+                    std::cmp::Ordering::Greater => c = e.right_sibling,
+                }
+            }
+            match found {
+                Some(f) => cur = f,
+                None => {
+                    ok = false;
+                    break;
+                }
+            }
+        }
+        if ok && cur != slot {
+            return Some(format!("handle {} was opened on {} (now in directory slot {}) but is bound to slot {}", id, path, cur, slot));
+        }
+        if ok && d.dir_entries[slot].obj_type != 2 {
+            return Some(format!("handle {} on {} is bound to slot {} which is not a stream entry", id, path, slot));
+        }
+    }
+    None
 }
